@@ -755,7 +755,19 @@ static int janet_chan_pack(JanetChannel *chan, Janet *x) {
                 JANET_OUT_OF_MEMORY;
             }
             janet_buffer_init(buf, 10);
-            janet_marshal(buf, *x, NULL, JANET_MARSHAL_UNSAFE);
+            /* The caller holds the channel lock: a value that cannot be marshalled must not
+             * unwind past it (and must not leak the transit buffer). */
+            JanetTryState tstate;
+            JanetSignal signal = janet_try(&tstate);
+            if (signal == JANET_SIGNAL_OK) {
+                janet_marshal(buf, *x, NULL, JANET_MARSHAL_UNSAFE);
+            }
+            janet_restore(&tstate);
+            if (signal != JANET_SIGNAL_OK) {
+                janet_buffer_deinit(buf);
+                janet_free(buf);
+                return 1;
+            }
             *x = janet_wrap_buffer(buf);
             return 0;
         }
